@@ -243,7 +243,7 @@ func checkJSONText(r *kit.Run, asYAML bool) {
 	if err != nil {
 		r.Fatal("JsonText dump: %v", err)
 	}
-	if canary == 0 || caught != canary {
+	if (canary == 0 && r.Violations() == 0) || caught != canary {
 		r.Fatal("JsonText canary: %d of %d perturbed denotations noticed", caught, canary)
 	}
 	r.Set("json_text_cases", int(cases))
